@@ -98,6 +98,9 @@ def canon_elems(e):
 
         def visit_Subscript(self, node):
             self.generic_visit(node)
+            if isinstance(node.value, (ast.Tuple, ast.List)) and isinstance(node.slice, ast.Constant) and isinstance(node.slice.value, int) and not isinstance(node.slice.value, bool) \
+                    and -len(node.value.elts) <= node.slice.value < len(node.value.elts) and not any(isinstance(x, ast.Starred) for x in node.value.elts):
+                return node.value.elts[node.slice.value]  # element of a tuple built in place
             if isinstance(node.slice, ast.Constant) and isinstance(node.slice.value, int) and not isinstance(node.slice.value, bool) and node.slice.value >= 0 and _is_func_call(node.value) and isinstance(node.ctx, ast.Load):
                 return ast.Call(func=ast.Name(id="__unpack__", ctx=ast.Load()), args=[node.value, ast.Constant(value=node.slice.value), ast.Constant(value=None)], keywords=[])
             return node
@@ -292,6 +295,37 @@ def check_payload(ck, cx, r, m):
         raise AnalysisError("%s: the returned value %s goes through a helper the rule does not understand" % (cx.fi.qualname, q.unparse(P)[:80]))
     ck.ob("C23.mac-covers", cx.fi, r.ast, m.covers(P), "the returned payload %s is part of the MAC input (%s mode)" % (q.unparse(P)[:80], m.mode))
     return P, codec
+
+
+def check_field_lengths(ck, cx, r, m):
+    """The decoder does not reject a correctly signed value because of the *length* of one of its fields:
+    create_signed_value signs names and values of any length."""
+    from ..x_secflow import guarding_tests
+    import copy
+
+    fi = cx.fi
+    for t, edge in guarding_tests(fi.cfg, r):
+        E = cx.rd.expand(t.ast, t)
+        if not (isinstance(E, ast.Compare) and len(E.ops) == 1):
+            continue
+        lens = [x for x in [E.left] + list(E.comparators) if isinstance(x, ast.Call) and isinstance(x.func, ast.Name) and x.func.id == "len" and len(x.args) == 1 and m.covers(x.args[0])]
+        if not lens:
+            continue
+        dumps = {ast.dump(x) for x in lens}
+
+        class L(ast.NodeTransformer):
+            def visit_Call(self, node):
+                if ast.dump(node) in dumps:
+                    return ast.Name(id="__L", ctx=ast.Load())
+                return self.generic_visit(node)
+
+        F = L().visit(copy.deepcopy(E))
+        try:
+            passing = {n_ for n_ in list(range(0, 300)) + [4096, 10 ** 6] if bool(q.fold(F, {"__L": n_})) == (edge == "true")}
+        except q.NotFoldable:
+            raise AnalysisError("%s: length test on a signed field not evaluable: %s" % (fi.qualname, q.unparse(t.ast)[:80]))
+        rejected = sorted((set(range(1, 300)) | {4096, 10 ** 6}) - passing)
+        ck.ob("C23.fields-agree", fi, t.ast, not rejected, "the decoder accepts signed fields of any length (the encoder signs names and values of any length)%s" % ("" if not rejected else "; rejected lengths e.g. %s" % rejected[:4]))
 
 
 def check_name(ck, cx, r, m):
@@ -1266,6 +1300,7 @@ def run(ck):
             tab = tabs.get(ver)
             ck.need(tab is not None, "%s verifies with %s which create_signed_value does not use" % (fi.qualname, m.signer))
             P, codec = check_payload(ck, cx, r, m)
+            check_field_lengths(ck, cx, r, m)
             nf = check_name(ck, cx, r, m)
             ts_op = check_expiry(ck, cx, r, m)
             if m.mode == "parts":
@@ -1411,6 +1446,7 @@ MUTANTS = [
     ("entry: the empty/None input test removed", _in("decode_signed_value", remove_stmts(lambda st: isinstance(st, ast.If) and ast.unparse(st.test) == "not value")), "C23.exc-none"),
     ("seeded C23-adv3: fields unpacked from split(...)[:3] (appended data ignored)", _in("_decode_signed_value_v1", lambda root: _seed_adv3(root)), "C23.fields-agree"),
     ("v1: parts taken from split(...)[:3] with the length test kept on the slice", _in("_decode_signed_value_v1", replace_expr(lambda n: isinstance(n, ast.Call) and q.call_attr(n) == "split", lambda n: ast.Subscript(value=n, slice=ast.Slice(upper=ast.Constant(value=3)), ctx=ast.Load()))), "C23.fields-agree"),
+    ("v2 decoder refuses names longer than 64 bytes", _in("_decode_signed_value_v2", replace_expr(lambda n: isinstance(n, ast.Compare) and "name_field" in ast.unparse(n), lambda n: parse_expr("name_field != utf8(name) or len(name_field) > 64"))), "C23.fields-agree"),
     ("dispatch: v1 decoder called for version 2 values too", _in("decode_signed_value", replace_expr(lambda n: isinstance(n, ast.Compare) and ast.unparse(n) == "version == 1", lambda n: parse_expr("version <= 2"))), "C23.dispatch"),
 ]
 
